@@ -204,8 +204,9 @@ def _code(sub):
 
 CORPUS = [
     # base class then subclass overridden (design_probes/t6.py): titles leaked after clear on the pinned tree
-    ("override-base-then-subclass", [G(["ov_runtime_type"], "ok"), G(["nothing"], "typeerr"), G(["nothing"], "zerodiv")]),
-    ("override-subclass-then-base", [G(["ov_type_runtime"], "ok"), G(["nothing"], "nameerr"), G(["nothing"], "zerodiv")]),
+    ("override-base-then-subclass", [G(["ov_runtime_type"], "ok"), G(["suppress_algo"], "typeerr"),
+                                     G(["nothing"], "typeerr", skip_tifa=True), G(["nothing"], "zerodiv")]),
+    ("override-subclass-then-base", [G(["ov_type_runtime"], "ok"), G(["suppress_algo"], "nameerr"), G(["nothing"], "zerodiv")]),
     # pools survive clear on the pinned tree (design_probes/t14.py)
     ("pools-then-plain", [G(["pools", "gently"], "ok"), G(["gently"], "ok")]),
     ("pools-one-then-error", [G(["pools_one"], "ok"), G(["nothing"], "zerodiv")]),
@@ -259,7 +260,8 @@ PROBES = [(["gently"], "ok"), (["nothing"], "zerodiv"), (["nothing"], "typeerr")
           (["nothing"], "unused"), (["nothing"], "syntax"), (["nothing"], "empty"), (["student_out"], "printer"),
           (["assert_call", "compliment"], "ok"), (["sections"], "sections"), (["all_feedback"], "ok"),
           (["tifa_again"], "mathpi"), (["custom_cls", "custom_untriggered"], "unused"), (["student_out"], "input2"),
-          (["unit_test"], "wrong"), (["explain", "gently_low"], "keyerr")]
+          (["unit_test"], "wrong"), (["explain", "gently_low"], "keyerr"), (["suppress_algo"], "typeerr"),
+          (["suppress_algo"], "nameerr")]
 
 
 def systematic_histories(fragments, chunk=6):
